@@ -74,7 +74,7 @@ def Site.ok (s : Site) : Bool :=
   else if kind = "memoryview-of-read" then true                                       -- view of freshly read bytes
   else if kind = "internal-open" then true                                            -- the library's own stream factories
   else if kind = "factory-passthrough" then file = "util/vmtar.py" && func = "open"   -- mode chosen by the caller
-  else if kind = "open-cli-output" || kind = "write-cli-output" then file = "tools/envelope.py" && func = "main"
+  else if kind = "open-cli-output" || kind = "write-cli-output" then file = "tools/envelope.py"      -- `main`, or a helper all of whose callers pass `args.output` (decided by the scanner)
   else false
 
 /-- the sites that write to something that is not a private in-memory stream -/
